@@ -12,6 +12,8 @@
 #include "cache_storage.h"
 #include <booster/intrusive_ptr.h>
 #include <iostream>
+#include <vector>
+#include <string>
 
 using namespace cppcms::impl;
 
@@ -22,8 +24,30 @@ static unsigned limit=0;
 static int names=3;
 static long vcounter=0;
 
-static std::string nm(int i) { char b[32]; snprintf(b,sizeof(b),"n%d",i); return b; }
-static int unnm(std::string const &s) { if(s.size()<2||s[0]!='n') return -1; return atoi(s.c_str()+1); }
+// VERIF_COLLIDE=1: every key / trigger name has the SAME hash value (string_hash of private/hash_map.h), so all of them
+// live in one bucket chain of the key index and of the trigger index whatever the table size is
+static std::vector<std::string> const &colliding()
+{
+	static std::vector<std::string> v;
+	if(v.empty()) {
+		char const *al="abcdefghijklmnopqrstuvwxyzABCDEFGHIJKLMNOPQRSTUVWXYZ0123456789";
+		unsigned target=('m'*16u+'m')*16u+'m';
+		for(char const *a=al;*a;a++) for(char const *b=al;*b;b++) for(char const *c=al;*c;c++)
+			if(((unsigned)(unsigned char)*a*16u+(unsigned char)*b)*16u+(unsigned char)*c==target) v.push_back(std::string(1,*a)+*b+*c);
+	}
+	return v;
+}
+static std::string nm(int i)
+{
+	static bool collide = getenv("VERIF_COLLIDE")!=0;
+	if(collide && i>=0 && (size_t)i<colliding().size()) return colliding()[i];
+	char b[32]; snprintf(b,sizeof(b),"n%d",i); return b;
+}
+static int unnm(std::string const &s)
+{
+	if(getenv("VERIF_COLLIDE")) { for(size_t i=0;i<colliding().size();i++) if(colliding()[i]==s) return (int)i; }
+	if(s.size()<2||s[0]!='n') return -1; return atoi(s.c_str()+1);
+}
 
 static std::string mkval(long id)
 {
